@@ -3668,6 +3668,67 @@ func tabFacts(repo string) {
 	footer("TabFacts", toText, toCSV, sup, span, lpad)
 }
 
+// ---------------------------------------------------------------- C01: benchfmt/writer.go
+
+func writeFacts(repo string) {
+	f := parseFile(repo, "benchfmt/writer.go")
+	wr := methodDecl(f, "Writer", "writeResult")
+	wf := methodDecl(f, "Writer", "writeFileConfig")
+	wu := methodDecl(f, "Writer", "writeUnitMetadata")
+	header("WriteFacts", "benchfmt/writer.go")
+	type fcall struct {
+		format string
+		args   []string
+	}
+	collect := func(fd *ast.FuncDecl) (out []fcall, newlines int) {
+		ast.Inspect(fd.Body, func(n ast.Node) bool {
+			fun, args, ok := callOfNode(n)
+			if !ok {
+				return true
+			}
+			if fun == "fmt.Fprintf" && len(args) >= 2 {
+				v, ok := strLit(args[1])
+				if !ok {
+					die("%s: non-literal format %s", fd.Name.Name, src(args[1]))
+				}
+				var as []string
+				for _, a := range args[2:] {
+					as = append(as, src(a))
+				}
+				out = append(out, fcall{v, as})
+			}
+			if fun == "w.buf.WriteByte" && len(args) == 1 && intOf(args[0], nil, "WriteByte").Int64() == 10 {
+				newlines++
+			}
+			return true
+		})
+		return
+	}
+	emit := func(name string, calls []fcall) {
+		var fs, ts, as []string
+		for _, c := range calls {
+			fs = append(fs, c.format)
+			ts = append(ts, sprintfTokens(c.format, name))
+			as = append(as, leanStrList(c.args))
+		}
+		pf("def %sFormats : List String := %s\n", name, leanStrList(fs))
+		pf("def %sArgs : List (List String) := %s\n", name, joinS(as))
+		pf("def %sTokens : List (List (Nat × Nat × Nat)) := %s\n", name, joinS(ts))
+	}
+	pf("/-- every fmt.Fprintf of the function in source order: format, argument expressions, and the format as elements ((0,i,0) = %%s/%%v of argument i, (1,i,0) = %%d, (2,b,0) = byte b); plus the number of WriteByte('\\n') calls -/\n")
+	rc, rn := collect(wr)
+	emit("result", rc)
+	pf("def resultNewlines : Nat := %d\n", rn)
+	fc, fn := collect(wf)
+	emit("fileConfig", fc)
+	pf("def fileConfigNewlines : Nat := %d\n", fn)
+	uc, _ := collect(wu)
+	emit("unit", uc)
+	origCond := mustIf(wr.Body, "OrigUnit test", func(c string) bool { return strings.Contains(c, "OrigUnit") })
+	pf("/-- the tidied value is printed unless: -/\ndef origUnitCond : String := %s\n", leanStr(strings.Join(strings.Fields(src(origCond.Cond)), " ")))
+	footer("WriteFacts", wr, wf, wu)
+}
+
 func main() {
 	if len(os.Args) != 3 {
 		fmt.Fprintln(os.Stderr, "usage: extract <FactsName> <repo>")
@@ -3700,6 +3761,8 @@ func main() {
 		parseFacts(os.Args[2])
 	case "TabFacts":
 		tabFacts(os.Args[2])
+	case "WriteFacts":
+		writeFacts(os.Args[2])
 	default:
 		fmt.Fprintln(os.Stderr, "unknown facts", os.Args[1])
 		os.Exit(2)
